@@ -1,6 +1,7 @@
 package main
 
 import (
+	"strings"
 	"fmt"
 	"go/types"
 	"unicode/utf8"
@@ -44,7 +45,22 @@ func mapFind(md MapData, key Value) []mapChoice {
 }
 
 // forkChoices forks s over the feasible choices and applies fn to each resulting state.
-func (w *Worker) forkChoices(s *State, conds []string, fn func(st *State, i int)) ([]*State, bool) {
+// guarded runs the set-up of one fork side; a Go panic there belongs to that side only.
+func guarded(st *State, fn func()) {
+	defer func() {
+		if r := recover(); r != nil {
+			if gp, ok := r.(goPanic); ok {
+				st.PanicMsg = gp.Msg
+				return
+			}
+			panic(r)
+		}
+	}()
+	fn()
+}
+
+func (w *Worker) forkChoices(s *State, conds []string, fn0 func(st *State, i int)) ([]*State, bool) {
+	fn := func(st *State, i int) { guarded(st, func() { fn0(st, i) }) }
 	if len(conds) == 1 && conds[0] == "true" {
 		fn(s, 0)
 		return nil, false
@@ -98,6 +114,9 @@ func (w *Worker) stepMore(s *State, f *Frame, in ssa.Instruction) ([]*State, boo
 		adv()
 	case *ssa.Slice:
 		v := w.val(s, f, x.X)
+		if b, ok := v.(SliceV); ok && b.Len == -1 && b.Obj != 0 && (x.Low != nil || x.High != nil) {
+			return w.sliceBlob(s, f, x, b)
+		}
 		lo, hi := 0, -1
 		if x.Low != nil {
 			lo = concreteInt(w.val(s, f, x.Low), "slice low")
@@ -405,7 +424,7 @@ func (w *Worker) builtin(s *State, f *Frame, x *ssa.Call, name string, args []Va
 			if a.Len == -1 {
 				b := s.Heap[a.Obj].(BlobV)
 				if b.Kind == "str" {
-					set(strLen(b.S))
+					set(sumLen(b.S))
 				} else {
 					set(symInt("(str.len " + w.blobStr(s, a.Obj) + ")"))
 				}
@@ -438,10 +457,21 @@ func (w *Worker) builtin(s *State, f *Frame, x *ssa.Call, name string, args []Va
 	case "append":
 		a := args[0].(SliceV)
 		var elems []Value
+		blobDone := false
 		switch b := args[1].(type) {
 		case SliceV:
 			if b.Len == -1 || a.Len == -1 {
-				panic(engineErr("append involving an opaque byte string"))
+				// byte strings that are only passed around: the result is their concatenation
+				as, bs := litStr(""), litStr("")
+				if a.Obj != 0 {
+					as = w.stringOfBytes(s, a).(StrV)
+				}
+				if b.Obj != 0 {
+					bs = w.stringOfBytes(s, b).(StrV)
+				}
+				set(w.bytesOfString(s, strConcat(as, bs)))
+				blobDone = true
+				break
 			}
 			if b.Obj != 0 {
 				arr := s.Heap[b.Obj].(ArrayV)
@@ -455,6 +485,9 @@ func (w *Worker) builtin(s *State, f *Frame, x *ssa.Call, name string, args []Va
 			for _, c := range cs {
 				elems = append(elems, charInt(c))
 			}
+		}
+		if blobDone {
+			break
 		}
 		if len(elems) == 0 {
 			set(a)
@@ -578,4 +611,94 @@ func (w *Worker) builtin(s *State, f *Frame, x *ssa.Call, name string, args []Va
 		panic(engineErr("builtin " + name))
 	}
 	return nil, false
+}
+
+
+// sumLen is the length of a string term as a sum over the leaves of its concatenation.
+func sumLen(a StrV) IntV {
+	if a.K != SOpaque {
+		return strLen(a)
+	}
+	leaves := flattenConcat(a.T)
+	if len(leaves) == 1 {
+		return strLen(a)
+	}
+	parts := make([]string, len(leaves))
+	for i, l := range leaves {
+		parts[i] = strLen(opaqueStr(l)).T
+	}
+	return symInt("(+ " + strings.Join(parts, " ") + ")")
+}
+
+// sliceBlob is b[lo:hi] for an opaque byte string with (possibly symbolic) bounds: a new
+// opaque byte string (str.substr), or - when the path condition forces a bound onto a
+// boundary between the leaves of a concatenation - the leaves themselves.
+func (w *Worker) sliceBlob(s *State, f *Frame, x *ssa.Slice, b SliceV) ([]*State, bool) {
+	if x.Max != nil {
+		panic(engineErr("3-index slice of an opaque byte string"))
+	}
+	depth := len(s.stack())
+	str := w.stringOfBytes(s, b).(StrV)
+	total := sumLen(str)
+	lo := mkInt(0)
+	hi := total
+	if x.Low != nil {
+		lo = w.val(s, f, x.Low).(IntV)
+	}
+	if x.High != nil {
+		hi = w.val(s, f, x.High).(IntV)
+	}
+	inRange := tAnd("(<= 0 "+lo.T+")", "(<= "+lo.T+" "+hi.T+")", "(<= "+hi.T+" "+total.T+")")
+	return w.branch(s, inRange,
+		func(st *State) {
+			res := w.substrOf(st, str, lo, hi, total)
+			p := st.alloc(BlobV{Kind: "str", S: res})
+			cf := st.stack()[depth-1]
+			cf.Env[x] = SliceV{p.Obj, 0, -1, -1}
+			cf.PC++
+		},
+		func(st *State) { panic(goPanic{"slice bounds out of range"}) })
+}
+
+// substrOf computes str[lo:hi] (0 <= lo <= hi <= len(str) holds on the path).
+func (w *Worker) substrOf(st *State, str StrV, lo, hi, total IntV) StrV {
+	forced := func(c string) bool { return !w.feasible(st, tNot(c)) }
+	if str.K == SOpaque {
+		leaves := flattenConcat(str.T)
+		if len(leaves) > 1 {
+			// prefix sums of the leaf lengths; find leaf boundaries the bounds are forced onto
+			sums := []string{"0"}
+			acc := []string{}
+			for _, l := range leaves {
+				acc = append(acc, strLen(opaqueStr(l)).T)
+				if len(acc) == 1 {
+					sums = append(sums, acc[0])
+				} else {
+					sums = append(sums, "(+ "+strings.Join(acc, " ")+")")
+				}
+			}
+			li, hj := -1, -1
+			for i, sm := range sums {
+				if li < 0 && forced(tEq(lo.T, sm)) {
+					li = i
+				}
+				if forced(tEq(hi.T, sm)) {
+					hj = i
+				}
+			}
+			if li >= 0 && hj >= li {
+				out := litStr("")
+				for _, l := range leaves[li:hj] {
+					out = strConcat(out, opaqueStr(l))
+				}
+				return out
+			}
+		}
+	}
+	n := "(- " + hi.T + " " + lo.T + ")"
+	r := opaqueStr("(str.substr " + str.term() + " " + lo.T + " " + n + ")")
+	if r.K == SOpaque {
+		st.addPC(tEq("(str.len "+r.T+")", n))
+	}
+	return r
 }
